@@ -123,3 +123,20 @@ Example C06_history_example :
   | None => False
   end.
 Proof. vm_compute. split; reflexivity. Qed.
+
+(* ---------- tie to the source: the part of the model this property rests on is what /verif/translate derives from
+   /repo's Go source on this run (Generated/*.v are rewritten before every build; see DESIGN.md section 9) ---------- *)
+From HC.Generated Require Import SrcStatus.
+From HC.Proofs Require Import TieStatus.
+Theorem C06_source_storability : forall r req_cc res_cc,
+  src_can_store_response r req_cc res_cc = can_store_response r req_cc res_cc.
+Proof. exact tie_can_store_response. Qed.
+Theorem C06_source_status_tables : forall code,
+  src_is_status_understood code = is_status_understood code /\
+  src_is_heuristically_cacheable code = is_heuristically_cacheable code.
+Proof. intros; split; [apply tie_is_status_understood|apply tie_is_heuristically_cacheable]. Qed.
+Theorem C06_source_method_gate : forall q, src_is_request_method_understood q = is_request_method_understood q.
+Proof. exact tie_is_request_method_understood. Qed.
+Print Assumptions C06_source_storability.
+Print Assumptions C06_source_status_tables.
+Print Assumptions C06_source_method_gate.
